@@ -314,7 +314,7 @@ func genC18(t *rapid.T) c18Case {
 				}
 			}
 			if kind == "badkey" {
-				l.Key = rapid.SampledFrom([]string{"K Y", "K$", `K"x`, "K{", "a b c", "K'", "K!", "K*"}).Draw(t, "badkey")
+				l.Key = rapid.SampledFrom([]string{"K Y", "K$", `K"x`, "K{", "a b c", "K'", "K!", "K*", "K\tY", "K\u00a0Y", "K \tY", "K\vY"}).Draw(t, "badkey")
 				neg = true
 			}
 			if kind == "unterminated" {
